@@ -327,9 +327,9 @@ package git
 //gvc:  results err
 //gvc:  requires nn: w != nil && opts != nil && w.r != nil
 //gvc:  modifies w.r.Storer.#refs
-//gvc:  ensures rollback: err != nil && calls("Reference") >= 1 && now(headErr) == nil && calls("createBranch") + calls("setHEADToBranch") + calls("setHEADToCommit") + calls("Reset") >= 1 ==> calls("SetReference") >= 1 && lastarg("SetReference", 0) == now(head)
+//gvc:  ensures rollback: err != nil && now(headErr) == nil && calls("createBranch") + calls("setHEADToBranch") + calls("setHEADToCommit") + calls("Reset") >= 1 ==> calls("SetReference") >= 1 && lastarg("SetReference", 0) == now(head)
 //gvc:  ensures restored: err != nil && calls("Reference") >= 1 && now(headErr) == nil && calls("SetReference") >= 1 && lastres("SetReference") == nil ==> w.r.Storer.#refs[strid("HEAD")] == now(head)
-//gvc:  ensures uncreated: err != nil && calls("Reference") >= 1 && now(created) ==> calls("RemoveReference") >= 1
+//gvc:  ensures uncreated: err != nil && calls("createBranch") >= 1 && lastres("createBranch") == nil ==> calls("RemoveReference") >= 1
 //gvc:  sink RemoveReference requires own: strid(arg0) == strid(opts.Branch)
 //gvc:  sink SetReference requires saved: arg0 == head
 //gvc:end
